@@ -305,16 +305,20 @@ class AddressRange(collections.namedtuple(
         """Get each address for every cell, yields one row at a time."""
         col_range = self.start.col_idx, self.end.col_idx + 1
         for row in range(self.start.row, self.end.row + 1):
-            yield (AddressCell((col, row, col, row), sheet=self.sheet)
-                   for col in range(*col_range))
+            # (row=row: the inner generator may be consumed after the loop
+            # moved on)
+            yield (lambda row=row: (
+                AddressCell((col, row, col, row), sheet=self.sheet)
+                for col in range(*col_range)))()
 
     @property
     def cols(self):
         """Get each address for every cell, yields one column at a time."""
         col_range = self.start.col_idx, self.end.col_idx + 1
         for col in range(*col_range):
-            yield (AddressCell((col, row, col, row), sheet=self.sheet)
-                   for row in range(self.start.row, self.end.row + 1))
+            yield (lambda col=col: (
+                AddressCell((col, row, col, row), sheet=self.sheet)
+                for row in range(self.start.row, self.end.row + 1)))()
 
     def address_at_offset(self, row_inc=0, col_inc=0):
         return self.start.address_at_offset(row_inc=row_inc, col_inc=col_inc)
